@@ -110,7 +110,8 @@ PROPS["C08"] = {
     "units": [{
         "pkg": "command", "race": True,
         "tests": [T("TestC08Engine", {"checks": 25, "shards": 12, "gomaxprocs": [1, 2, 4, 16], "env": {"C08_MAXN": 4500}},
-                    {"checks": 250, "shards": 16, "gomaxprocs": [1, 2, 4, 16], "env": {"C08_MAXN": 5000}})],
+                    {"checks": 250, "shards": 16, "gomaxprocs": [1, 2, 4, 16], "env": {"C08_MAXN": 5000}}),
+                  T("TestC08ErrorRecords", {"checks": 12, "shards": 6}, {"checks": 80, "shards": 12})],
     }],
 }
 
@@ -165,5 +166,18 @@ PROPS["C13"] = {
         "pkg": "command",
         "tests": [T("TestC13Stack", {"checks": 4000, "shards": 4}, {"checks": 40000, "shards": 16}),
                   T("TestC13Commands", {"checks": 150, "shards": 8}, {"checks": 2000, "shards": 16})],
+    }],
+}
+
+PROPS["C11"] = {
+    "level": "exploration",
+    "assumptions": ["encoding/json is the independent decoder of the printed lines; verifkit/wire builds the ARP frames",
+                    "concurrency: 1..32 readers of one cache under the race detector; schedules sampled",
+                    "an ARP reply lost to the short exit delay of the first command makes the pipeline case inconclusive (that is C16's subject)"],
+    "units": [{
+        "pkg": "command", "race": True,
+        "tests": [T("TestC11RoundTrip", {"checks": 600, "shards": 4}, {"checks": 6000, "shards": 8}),
+                  T("TestC11CacheFile", {"checks": 300, "shards": 4, "gomaxprocs": [1, 4, 16, 2]}, {"checks": 3000, "shards": 16, "gomaxprocs": [1, 4, 16, 2]}),
+                  T("TestC11Commands", {"checks": 25, "shards": 8}, {"checks": 300, "shards": 16})],
     }],
 }
